@@ -119,9 +119,106 @@ func nestedNoDict(rng *rand.Rand) arrow.DataType {
 	return t
 }
 
+// nestedDict is a list/struct/map column with a dictionary one to three levels below it.
+func nestedDict(rng *rand.Rand) arrow.DataType {
+	t := wrap(rng, dictType(rng), rng.Intn(5))
+	if rng.Intn(3) == 0 {
+		t = wrap(rng, t, rng.Intn(5))
+		if rng.Intn(2) == 0 {
+			t = wrap(rng, t, rng.Intn(3))
+		}
+	}
+	return t
+}
+
+// classKey names a schema class: the class name, or for an enumerated schema its column sequence.
+func classKey(sc string, cols []string) string {
+	if sc == "seq" {
+		return "seq:" + strings.Join(cols, ",")
+	}
+	return sc
+}
+
+// seqFields builds exactly one column per element of cols, in that order ("p" fixed-width,
+// "s" string/binary, "n" nested without dictionary, "t" dictionary, "d" nested with a
+// dictionary below); one of the "t" columns is the dictionary<_, utf8> length knob. The
+// optional id column goes to a random position.
+func seqFields(cols []string, rng *rand.Rand, forceID bool) (fields []arrow.Field, padCol int) {
+	padCol = -1
+	nT := 0
+	for _, c := range cols {
+		if c == "t" {
+			nT++
+		}
+	}
+	padAt := -1
+	if nT > 0 {
+		padAt = rng.Intn(nT)
+	}
+	add := func(prefix string, t arrow.DataType) {
+		fields = append(fields, fld(fmt.Sprintf("%s%d", prefix, len(fields)), t, rng))
+	}
+	k := 0
+	for _, c := range cols {
+		switch c {
+		case "p":
+			add("p", plainType(rng))
+		case "s":
+			add("s", stringType(rng))
+		case "n":
+			add("n", nestedNoDict(rng))
+		case "t":
+			if k == padAt {
+				padCol = len(fields)
+				fields = append(fields, arrow.Field{Name: "dpad", Type: stringDictType(rng), Nullable: true})
+			} else {
+				add("d", dictType(rng))
+			}
+			k++
+		case "d":
+			add("dn", nestedDict(rng))
+		default:
+			panic("unknown column class " + c)
+		}
+	}
+	if forceID || rng.Intn(2) == 0 {
+		at := rng.Intn(len(fields) + 1)
+		fields = append(fields, arrow.Field{})
+		copy(fields[at+1:], fields[at:])
+		fields[at] = arrow.Field{Name: "id", Type: arrow.PrimitiveTypes.Int64}
+		if padCol >= at {
+			padCol++
+		}
+	}
+	return fields, padCol
+}
+
 // schemaFields draws the columns of a schema class. padCol is the index of the
 // top-level dictionary<_, utf8> column used as the length knob for stripped layouts (-1 if none).
-func schemaFields(sc string, rng *rand.Rand, forceID bool) (fields []arrow.Field, padCol int) {
+// The column groups of a named class are drawn in a fixed order and then, half of the time,
+// the columns are put in a random order (the model classifies a schema by which column
+// classes occur, not where: ClassificationOrderIndependent).
+func schemaFields(sc string, cols []string, rng *rand.Rand, forceID bool) (fields []arrow.Field, padCol int) {
+	if sc == "seq" {
+		return seqFields(cols, rng, forceID)
+	}
+	fields, padCol = namedFields(sc, rng, forceID)
+	if rng.Intn(2) == 0 {
+		perm := rng.Perm(len(fields))
+		out := make([]arrow.Field, len(fields))
+		np := -1
+		for to, from := range perm {
+			out[to] = fields[from]
+			if from == padCol {
+				np = to
+			}
+		}
+		fields, padCol = out, np
+	}
+	return fields, padCol
+}
+
+func namedFields(sc string, rng *rand.Rand, forceID bool) (fields []arrow.Field, padCol int) {
 	padCol = -1
 	add := func(prefix string, t arrow.DataType) {
 		fields = append(fields, fld(fmt.Sprintf("%s%d", prefix, len(fields)), t, rng))
@@ -527,17 +624,17 @@ func twinize(fields []arrow.Field) {
 }
 
 // newGen draws the schema and builds the columns for `total` rows.
-func newGen(sc string, rows int, md string, forceID bool, seed int64, offKey, lenKey string) *genBatch {
+func newGen(sc string, cols []string, rows int, md string, forceID bool, seed int64, offKey, lenKey string) *genBatch {
 	rng := rand.New(rand.NewSource(seed))
 	g := &genBatch{rows: rows}
 	first, twin := twinOf[seed]
 	if twin {
 		// a near-twin of the schema of an earlier write to the same segment: the same
 		// draw, then changed only in what a digest of a schema is likely to drop
-		g.fields, g.padCol = schemaFields(sc, rand.New(rand.NewSource(first)), forceID)
+		g.fields, g.padCol = schemaFields(sc, cols, rand.New(rand.NewSource(first)), forceID)
 		twinize(g.fields)
 	} else {
-		g.fields, g.padCol = schemaFields(sc, rng, forceID)
+		g.fields, g.padCol = schemaFields(sc, cols, rng, forceID)
 	}
 	g.stripped = hasTopDict(g.fields)
 	g.padSeed = rng.Int63()
